@@ -57,7 +57,7 @@ def check_model(led, model):
                  ni_num_cores=integer('cores'), ni_method='simps2d', c0=Opaque('c0'), m0=integer('m0'), n0=integer('n0'),
                  E11=real('E11'), nu=real('nu'), h=real('h'))
     it.facts += [to_z3(real('r2')) > 0, to_z3(real('L')) > 0, to_z3(real('alphadeg')) > 0, to_z3(real('alphadeg')) < 90, to_z3(shims.PI) > 3]
-    for what in ('kT', 'fint'):
+    for what in ('kT', 'fint', 'fint-full'):
         del calls[:]
 
         def run():
@@ -69,12 +69,13 @@ def check_model(led, model):
             if what == 'kT':
                 r_ = it.call(it.getattr(cc, 'calc_kT'), [cu], dict(inc=inc, silent=True))
                 return cc, r_, list(calls)
-            r_ = it.call(it.getattr(cc, 'calc_fint'), [cu], dict(inc=inc, silent=True))
+            # the grid multiplier m is symbolic; 'fint-full' asks for the vector of all amplitudes (return_u=False)
+            r_ = it.call(it.getattr(cc, 'calc_fint'), [cu], dict(inc=inc, silent=True, m=integer('mgrid'), **({'return_u': False} if what == 'fint-full' else {})))
             return cc, r_, list(calls)
         res = it.explore(run)
         func = NLM if what == 'kT' else FI
         for path, out in res:
-            name = '%s[%s]' % (func, model)
+            name = '%s[%s%s]' % (func, model, ',return_u=False' if what == 'fint-full' else '')
             if out[0] == 'raise':
                 led.fail(name + '/no-exception', func, {'raises': out[1].tname, 'args': [str(a)[:100] for a in out[1].eargs]}, signature='raise:' + out[1].tname)
                 continue
@@ -88,12 +89,12 @@ def check_model(led, model):
             probs = []
             cfull = it.call(it.getattr(cc, 'calc_full_c'), [cu], dict(inc=inc))
 
-            def check_args(nm, a, kw, iso):
+            def check_args(nm, a, kw, iso, mult=P.const(1)):
                 # (c, alpharad, r2, L, tLArad, F | E11, nu, h, m1, m2, n2, nx, nt, num_cores, method, c0, m0, n0)
                 vals = list(a) + [kw.get(k) for k in ('nx', 'nt', 'num_cores', 'method', 'c0', 'm0', 'n0') if k in kw]
                 exp_mat = [attrs['E11'], attrs['nu'], attrs['h']] if iso else [Fmat]
                 want = [cfull, cc.attrs['alpharad'], attrs['r2'], attrs['L'], cc.attrs['tLArad']] + exp_mat + \
-                       [M1, M2, N2, attrs['nx'], attrs['nt'], attrs['ni_num_cores'], attrs['ni_method'], attrs['c0'], attrs['m0'], attrs['n0']]
+                       [M1, M2, N2, attrs['nx'] * mult, attrs['nt'] * mult, attrs['ni_num_cores'], attrs['ni_method'], attrs['c0'], attrs['m0'], attrs['n0']]
                 if len(vals) != len(want):
                     probs.append('%s called with %d arguments instead of %d' % (nm, len(vals), len(want)))
                     return
@@ -135,13 +136,15 @@ def check_model(led, model):
                 if len(by.get(nm, [])) != 1 or len(pcalls) != 1:
                     probs.append('kernel calls: %s' % [c_[0] for c_ in pcalls])
                 else:
-                    check_args(nm, by[nm][0][0], by[nm][0][1], False)
-                    want = Opaque('delete', of=Opaque('sum', terms=[Opaque('nlmat', name=nm, n=1), Opaque('matvec', a=k0, b=list(cfull))]), idx=[0, 1, 2], axis=None)
+                    check_args(nm, by[nm][0][0], by[nm][0][1], False, mult=integer('mgrid'))
+                    want = Opaque('sum', terms=[Opaque('nlmat', name=nm, n=1), Opaque('matvec', a=k0, b=list(cfull))])
+                    if what == 'fint':
+                        want = Opaque('delete', of=want, idx=[0, 1, 2], axis=None)
                     if not (isinstance(ret, Opaque) and ret.key() == want.key()):
                         probs.append('returns %r' % (ret,))
                 clause = 'fint = calc_fint_0L_L0_LL(calc_full_c(c)) + k0 calc_full_c(c), prescribed entries removed'
             if probs:
-                led.fail('%s/%s' % (name, clause), func, {'differences': probs[:8]}, signature=what)
+                led.fail('%s/%s' % (name, clause), func, {'differences': probs[:8]}, signature=what.split('-')[0])
             else:
                 led.ok('%s/%s' % (name, clause), func)
 
